@@ -214,6 +214,45 @@ func (self *Node) addDirectRefNodes(ref *syntax.RefExp,
 	return prenodes
 }
 
+// mergeSourceRefs adds, to refs, the references which determine the number
+// of elements of the merges in an expression over map calls of a size only
+// known at run time.  The merged value cannot be assembled before those are
+// complete, whatever its elements refer to: an element that does not depend
+// on the mapped-over collection can be complete long before the collection is.
+func mergeSourceRefs(exp syntax.Exp, refs []*syntax.RefExp) []*syntax.RefExp {
+	switch exp := exp.(type) {
+	case *syntax.ArrayExp:
+		for _, e := range exp.Value {
+			refs = mergeSourceRefs(e, refs)
+		}
+	case *syntax.MapExp:
+		for _, e := range exp.Value {
+			refs = mergeSourceRefs(e, refs)
+		}
+	case *syntax.SplitExp:
+		refs = mergeSourceRefs(exp.Value, refs)
+	case *syntax.DisabledExp:
+		refs = mergeSourceRefs(exp.Disabled, mergeSourceRefs(exp.Value, refs))
+	case *syntax.MergeExp:
+		refs = mergeSourceRefs(exp.Value, refs)
+		if exp.MergeOver != nil && !exp.MergeOver.KnownLength() {
+			src := exp.MergeOver
+			if set, ok := src.(*syntax.MapCallSet); ok && set.Master != nil {
+				src = set.Master
+			}
+			switch src := src.(type) {
+			case *syntax.BoundReference:
+				if src.Exp != nil {
+					refs = append(refs, src.Exp)
+				}
+			case syntax.Exp:
+				refs = append(refs, src.FindRefs()...)
+			}
+		}
+	}
+	return refs
+}
+
 func (self *Node) makePrenodesForBinding(bind *syntax.ResolvedBinding,
 	refs map[Nodable]struct{},
 	fileRefs map[Nodable]map[string]syntax.Type) (map[Nodable]struct{}, map[Nodable]map[string]syntax.Type) {
@@ -258,7 +297,7 @@ func (self *Node) makePrenodesForBinding(bind *syntax.ResolvedBinding,
 		}
 	}
 	// Make sure we get fork root prenodes as well as actual input prenodes.
-	allRefs := bind.Exp.FindRefs()
+	allRefs := mergeSourceRefs(bind.Exp, bind.Exp.FindRefs())
 	if len(allRefs) > 0 {
 		if refs == nil {
 			refs = make(map[Nodable]struct{}, len(allRefs))
